@@ -78,11 +78,13 @@ func (f c14fault) apply(env *Env) {
 		env.Writer.FailAt, env.Writer.Short = f.k, true
 	case "writer-once":
 		env.Writer.FailAt, env.Writer.Once = f.k, true
+	case "writer-full":
+		env.Writer.FailAt, env.Writer.Full = f.k, true
 	}
 	env.Writer.ErrVariant = f.k / 2
 }
 
-var c14kinds = []string{"reader", "reader+data", "writer", "writer-torn", "writer-short", "writer-once"}
+var c14kinds = []string{"reader", "reader+data", "writer", "writer-torn", "writer-short", "writer-once", "writer-full"}
 
 func caseC14(c *Ctx) {
 	massive := pickArm(c, []string{"simple", "massive"}, 5, 5) == "massive"
@@ -185,6 +187,9 @@ func caseC14(c *Ctx) {
 		}
 		if out.WriterFired && out.Err == nil {
 			what := "writer-error-swallowed"
+			if f.kind == "writer-full" {
+				what = "writer-error-with-full-count-swallowed"
+			}
 			if f.kind == "writer-short" {
 				what = "short-write-swallowed"
 			}
@@ -212,7 +217,7 @@ func caseC14(c *Ctx) {
 				}
 			}
 			for j := 0; j < W; j++ {
-				faults = append(faults, c14fault{"writer", j}, c14fault{"writer-torn", j}, c14fault{"writer-short", j}, c14fault{"writer-once", j})
+				faults = append(faults, c14fault{"writer", j}, c14fault{"writer-torn", j}, c14fault{"writer-short", j}, c14fault{"writer-once", j}, c14fault{"writer-full", j})
 			}
 		}
 		c.st.Add("enumerated.reader-offsets", L+1)
@@ -229,7 +234,7 @@ func caseC14(c *Ctx) {
 	}
 	// massive: one fault per case under a seeded schedule
 	var f c14fault
-	kinds := []string{"writer", "writer-torn", "writer-short", "writer-once", "writer-once"}
+	kinds := []string{"writer", "writer-torn", "writer-short", "writer-once", "writer-once", "writer-full"}
 	if !op.FromRoot {
 		kinds = c14kinds
 	}
